@@ -163,6 +163,10 @@ class Rules:
             self.r_mark_provenance(I, seg)
             self.r_expect_survives(I, seg)
             self.r_lookahead_linear(I, seg)
+            self.r_keyword_flow(I, seg)
+            self.r_unconsume(I, seg)
+            self.r_stop_set(I, seg)
+            self.r_pop_own(I, seg)
 
     # -- R-NONEMPTY and R-ERR-PAIR ---------------------------------------------------------------
     MAY_BE_EMPTY = {"EOF", "MacroSep", "MacroStringEmpty", "SEMI", "LPAREN", "RPAREN", "ASSIGN", "COMMA", "FSLASH",
@@ -524,6 +528,292 @@ class Rules:
                  "the mode-stack truncation (rollback) discards pending expectation mode(s) %s that were put on the stack after the "
                  "checkpoint was taken: the missing delimiter will not be diagnosed; removed modes (bottom..top): %s; conditions: %s"
                  % (what, [getattr(m, "variant", "?") for m in removed], "; ".join(seg.st.conds[-4:])[:200]))
+
+    # -- R-POP-OWN: a step pops only modes it can name --------------------------------------------------------------------
+    def r_pop_own(self, I, seg):
+        """A `lex_token` step owns the mode it was dispatched for and the modes it pushed itself.  Popping a mode
+        *below* those is popping somebody else's pending work: it is sound only on a path that has looked at that mode
+        and knows which one it is (`self.mode().is_expect_semi_or_eof()` before the second pop of `%to ... %by`)."""
+        for e in seg.events[seg.start:]:
+            if e.kind != "pop" or e.d.get("owner") != seg.name:
+                continue
+            key = "%s|pop" % short_fn(seg.name)
+            self.bump("R-POP-OWN", "pops", self.sites.key(e))
+            if e.d.get("known"):
+                I.ob("R-POP-OWN", key, True, self.sites.where(e), "pops the dispatched mode or one pushed in this step")
+                continue
+            ident = e.d.get("identified")
+            if not ident:
+                # the unwinding idiom `while let Some(mode) = stack.pop() { match mode {..} }` looks at the mode after
+                # taking it: any variant fact about the popped value on this path counts as having looked
+                m = e.d.get("mode")
+                f = seg.st.vfacts.get(m.key()) if m is not None and hasattr(m, "key") else None
+                if f and (f[0] or f[1]):
+                    ident = sorted(f[0]) if f[0] else ["not " + x for x in sorted(f[1])][:3]
+            I.ob("R-POP-OWN", key + "|below", bool(ident), self.sites.where(e),
+                 "pops a mode below its own and identifies it (%s)" % "/".join(ident or []) if ident else
+                 "%s pops a mode below the one it was dispatched for without having looked at it: whatever the enclosing "
+                 "construct left pending there (an open string expression, an expected delimiter) is dropped without its "
+                 "closing token or diagnostic; conditions: %s" % (short_fn(seg.name), "; ".join(seg.st.conds[-4:])[:240]))
+
+    # -- R-STOP-SET: a text scanner of macro-free code ends its token only where the grammar lets it ----------------------
+    _ALPHABET = [chr(i) for i in range(1, 128)] + list("\u00e9\u044b\u3042\u00a0\u2003\ufeff\u00ac\u00a6\u2218\U0001f525")
+
+    def stop_sets(self):
+        c = self.__dict__.get("_stopsets")
+        if c is None:
+            import os
+            with open(os.path.join(os.path.dirname(os.path.dirname(os.path.abspath(__file__))), "tables", "stop_sets.json")) as f:
+                c = self._stopsets = json.load(f)["types"]
+        return c
+
+    @staticmethod
+    def _name_start(x):
+        return x == "_" or x.isalpha()
+
+    def r_stop_set(self, I, seg):
+        from . import lea_prims
+        st = seg.st
+        tab = self.stop_sets()
+        evs = seg.events
+        strm = I.stream_of(st, "main")
+        for idx in range(seg.start, len(evs)):
+            e = evs[idx]
+            if e.kind != "emit" or e.d.get("owner") != seg.name:
+                continue
+            ts = variant_set(I, st, e.d["type"])
+            if not ts or len(ts) != 1 or next(iter(ts)) not in tab:
+                continue
+            t = next(iter(ts))
+            stops = tab[t]["stops"]
+            p = e.d.get("pos")
+            key = "%s|%s" % (short_fn(seg.name), t)
+            self.bump("R-STOP-SET", "emissions", self.sites.key(e))
+            # the facts of the whole path are used: later tests on the same positions only narrow them
+            if lea_prims.eof_known(st, strm, p) is True:
+                I.ob("R-STOP-SET", key, "<eof>" in stops, self.sites.where(e), "token ends at end of input")
+                continue
+            cf0 = st.cs.get(("LA", strm, p))
+            cf1 = st.cs.get(("LA", strm, p + 1))
+            bad = None
+            if cf0 is None:
+                bad = "nothing is known about the character the token stops in front of"
+            else:
+                for x in self._ALPHABET:
+                    if not cf0.possible(x):
+                        continue
+                    if x in stops:
+                        continue
+                    if x == "%" and ("%name_start" in stops or "%*" in stops):
+                        nxt = [y for y in self._ALPHABET if cf1 is None or cf1.possible(y)]
+                        off = [y for y in nxt if not (("%*" in stops and y == "*") or ("%name_start" in stops and self._name_start(y)))]
+                        if cf1 is not None and not off:
+                            continue
+                        bad = "it may stop in front of '%%' followed by %s" % (repr(off[0]) if off else "anything")
+                        break
+                    bad = "it may stop in front of %r" % x
+                    break
+            I.ob("R-STOP-SET", key, bad is None, self.sites.where(e),
+                 "%s ends only in front of %s" % (t, " ".join(stops)) if bad is None else
+                 "%s is emitted by %s on a path where %s; the grammar lets this token end only in front of %s, so on "
+                 "macro-free text the literal is split into several tokens; conditions: %s"
+                 % (t, short_fn(seg.name), bad, " ".join(stops), "; ".join(st.conds[-5:])[:260]))
+
+    # -- R-UNCONSUME: putting the cursor back takes back what was recorded for the un-consumed text -------------------
+    def r_unconsume(self, I, seg):
+        """`self.cursor = <saved copy>` un-consumes the text between the saved position and the cursor.  Whatever the
+        buffer recorded for that text since (line starts, tokens) must be taken back by a buffer rollback in the same
+        function; otherwise the line table / token list describes text the lexer is about to read again."""
+        from .lea_prims import snap_of
+        evs = seg.events
+        for i in range(seg.start, len(evs)):
+            r = evs[i]
+            if r.kind != "cursor_restore" or r.d.get("owner") != seg.name:
+                continue
+            key = "%s|restore" % short_fn(seg.name)
+            self.bump("R-UNCONSUME", "restores", self.sites.key(r))
+            p = r.d.get("to_pos")
+            if p is None:
+                I.ob("R-UNCONSUME", key, False, self.sites.where(r),
+                     "the lexer's cursor is replaced by a value LEA cannot trace to a saved copy of it")
+                continue
+            rolled = any(x.kind == "buffer_rollback" and x.d.get("owner") == seg.name for x in evs[seg.start:])
+            stale = []
+            for j in range(i - 1, -1, -1):
+                x = evs[j]
+                if x.kind in ("cursor_restore", "buffer_rollback"):
+                    break
+                if x.kind == "add_line":
+                    sn = snap_of(x.d.get("start"))
+                    if sn and sn[2] > p:
+                        stale.append(("line start", x))
+                elif x.kind == "emit":
+                    sn = snap_of(x.d.get("byte"))
+                    if sn and sn[2] >= p and x.d.get("pos", 0) > p:
+                        stale.append(("token", x))
+            ok = rolled or not stale
+            I.ob("R-UNCONSUME", key, ok, self.sites.where(r),
+                 "the buffer is rolled back with the cursor" if rolled else
+                 "nothing was recorded for the un-consumed text" if ok else
+                 "the cursor is put back from position %s to %s, but the %s recorded at %s for the text in between is kept "
+                 "(no buffer rollback in %s): the same text is lexed again on top of it"
+                 % (r.d.get("from_pos"), p, stale[0][0], self.sites.where(stale[0][1]), short_fn(seg.name)))
+
+    # -- R-KEYWORD-FLOW: a keyword type is the table entry of exactly the scanned identifier ---------------------------
+    def lookup_owner_fns(self):
+        """function -> phf map, for functions that call a one-line lookup wrapper (or `phf::Map::get` itself):
+        discovered from the call graph of the facts, nothing is named here."""
+        c = self.__dict__.get("_kwfns")
+        if c is None:
+            wrappers = {}
+            for fname, b in self.fx.bodies.items():
+                for node, _ in F.walk(b["hir"]):
+                    if node.get("k") == "MethodCall" and node.get("def") and F.norm(node["def"]) == "phf::Map::get":
+                        recv = F.strip(node["recv"])
+                        m = recv.get("res", {}).get("def") if recv.get("k") == "Path" else None
+                        if m:
+                            wrappers[fname] = F.norm(m)
+            c = dict(wrappers)
+            for fname, b in self.fx.bodies.items():
+                for node, _ in F.walk(b["hir"]):
+                    if node.get("k") in ("Call", "MethodCall") and node.get("def") and F.norm(node["def"]) in wrappers:
+                        c.setdefault(fname, wrappers[F.norm(node["def"])])
+            self._kwfns = c
+        return c
+
+    @staticmethod
+    def key_extent(key):
+        """(start label, end label) of the source text a lookup key denotes, or None."""
+        from .lea_prims import snap_of
+        v = key
+        for _ in range(6):
+            if isinstance(v, Term) and v.op.startswith("ext:") and ("as_ref" in v.op or "AsRef" in v.op or "borrow" in v.op.lower()) and v.args:
+                v = v.args[0]
+            else:
+                break
+
+        def dist(t):
+            for _ in range(4):
+                if isinstance(t, Term) and (t.op.startswith("cast:") or t.op == "into") and t.args:
+                    t = t.args[0]
+            if isinstance(t, Term) and t.op == "bin:Sub" and len(t.args) == 2 and \
+                    all(isinstance(x, Term) and x.op == "remaining_len" for x in t.args):
+                return (t.args[0].args[1].v, t.args[1].args[1].v)
+            return None
+
+        def slice_extent(sl):
+            if not (isinstance(sl, Term) and sl.op == "str_slice" and len(sl.args) == 3):
+                return None
+            base, a, b = sl.args
+            if isinstance(base, Obj) and base.kind == "source":
+                x, y = snap_of(a), snap_of(b)
+                if x and y and x[0] == y[0] == "byte" and x[3] == 0 and y[3] == 0:
+                    return (x[2], y[2])
+            if isinstance(base, Term) and base.op == "as_str" and a.key() == ("C", "unit", None) or (isinstance(base, Term) and base.op == "as_str" and repr(a) in ("()", "None")):
+                d = dist(b)
+                if d and d[0] == base.args[1].v:
+                    return d
+            return None
+        if isinstance(v, Term) and v.op == "upper_of" and v.args:
+            return slice_extent(v.args[0])
+        if isinstance(v, Term) and v.op.startswith("ext:") and "from_utf8_unchecked" in v.op and v.args:
+            a = v.args[0]
+            if isinstance(a, Term) and a.op == "index" and len(a.args) == 2 and isinstance(a.args[1], Enum):
+                end = a.args[1].fields.get("end")
+                d = dist(end)
+                if d:
+                    return d
+                if isinstance(end, Term) and end.op == "len" and end.args:
+                    return slice_extent(end.args[0])
+        return slice_extent(v)
+
+    def r_keyword_flow(self, I, seg):
+        st = seg.st
+        owners = self.lookup_owner_fns()
+        # (1) the key of a table lookup is the whole scanned text: it ends where the scanning cursor stands
+        for e in seg.events[seg.start:]:
+            if e.kind != "phf_lookup" or e.d.get("owner") != seg.name or not e.d.get("hit"):
+                continue
+            mp = short_fn(e.d["map"])
+            key = "%s|lookup-key" % mp
+            ext = self.key_extent(e.d["key"])
+            self.bump("R-KEYWORD-FLOW", "lookups", self.sites.key(e))
+            if ext is None:
+                I.ob("R-KEYWORD-FLOW", key, False, self.sites.where(e),
+                     "the key looked up in %s is not the (upper-cased) text of a source range LEA can place: %r" % (mp, e.d["key"]))
+                continue
+            ok = ext[1] in set(e.d.get("cursors", {}).values()) and ext[0] < ext[1]
+            I.ob("R-KEYWORD-FLOW", key, ok, self.sites.where(e),
+                 "the key is the scanned text up to the scanning cursor" if ok else
+                 "the key looked up in %s covers positions [%s, %s) but no cursor stands at its end (cursors: %s): the "
+                 "looked-up text is not the whole scanned identifier" % (mp, ext[0], ext[1], e.d.get("cursors")))
+        # (2) a token typed by a table entry spans exactly the looked-up text (after an optional fixed prefix)
+        for i in range(seg.start, len(seg.events)):
+            e = seg.events[i]
+            if e.kind != "emit" or e.d.get("owner") != seg.name:
+                continue
+            t = e.d.get("type")
+            tk = repr(t.key()) if hasattr(t, "key") else ""
+            if "'phf_val'" not in tk:
+                continue
+            pv = t
+            for _ in range(6):
+                if isinstance(pv, Term) and pv.op != "phf_val" and pv.args:
+                    pv = pv.args[0]
+            if not (isinstance(pv, Term) and pv.op == "phf_val"):
+                continue
+            mp = short_fn(pv.args[0].v)
+            ext = self.key_extent(pv.args[1])
+            key = "%s|%s|emit-extent" % (short_fn(seg.name), mp)
+            self.bump("R-KEYWORD-FLOW", "keyword_emits", self.sites.key(e))
+            if ext is None:
+                I.ob("R-KEYWORD-FLOW", key, False, self.sites.where(e), "token typed by a %s entry whose key LEA cannot place" % mp)
+                continue
+            from .lea_prims import snap_of
+            b = snap_of(e.d.get("byte"))
+            start = b[2] if b and b[3] == 0 else None
+            pre_ok = start is not None and start <= ext[0]
+            if pre_ok and start < ext[0]:
+                # fixed prefix (the `%` of a macro keyword): every character before the key is a single known character
+                if ext[0] - start > 4 or ext[0] // 100000 != start // 100000:
+                    pre_ok = False
+                for q in range(start, ext[0]) if pre_ok else ():
+                    f = st.cs.get(("LA", "main", q))
+                    cs = (f.inc - f.exc) if f is not None and f.inc is not None else None
+                    if not cs or len(cs) != 1:
+                        pre_ok = False
+            ok = pre_ok and e.d.get("pos") == ext[1]
+            I.ob("R-KEYWORD-FLOW", key, ok, self.sites.where(e),
+                 "the token ends where the looked-up text ends" if ok else
+                 "token typed by a %s entry: token start %s, cursor at emission %s, but the looked-up text is [%s, %s): the "
+                 "keyword type does not describe the token's text" % (mp, start, e.d.get("pos"), ext[0], ext[1]))
+        # (3) every key length of the table is admitted by some path that consults the table (joined over all
+        #     paths and modes in lea_engine.compute: an existential obligation)
+        if seg.level == "fn" and seg.name in owners and seg.out.kind in ("val", "ret"):
+            mp = owners[seg.name]
+            lens = sorted({len(k) for k, _ in (I.phf.get(mp) or [])})
+            looked = any(e.kind == "phf_lookup" for e in seg.events[seg.start:])
+            tag = "%s|%s" % (short_fn(seg.name), short_fn(mp))
+            for L in lens:
+                self.bump("R-KEYWORD-FLOW", "kwlen_required", "%s|%d" % (tag, L))
+            if looked:
+                admitted = set(lens)
+                for fk, fv in st.bfacts.items():
+                    if isinstance(fk, tuple) and len(fk) == 2 and fk[0] == "b":
+                        fk = fk[1]
+                    if not (isinstance(fk, tuple) and len(fk) == 4 and fk[0] == "X" and fk[1] in ("bin:Gt", "bin:Ge", "bin:Lt", "bin:Le")):
+                        continue
+                    a, b = fk[2], fk[3]
+                    if isinstance(b, tuple) and b[:2] == ("C", "int") and "len" in repr(a):
+                        n, op = b[2], fk[1]
+                    elif isinstance(a, tuple) and a[:2] == ("C", "int") and "len" in repr(b):
+                        n, op = a[2], {"bin:Gt": "bin:Lt", "bin:Ge": "bin:Le", "bin:Lt": "bin:Gt", "bin:Le": "bin:Ge"}[fk[1]]
+                    else:
+                        continue
+                    pred = {"bin:Gt": lambda L: L > n, "bin:Ge": lambda L: L >= n, "bin:Lt": lambda L: L < n, "bin:Le": lambda L: L <= n}[op]
+                    admitted = {L for L in admitted if pred(L) == fv}
+                for L in admitted:
+                    self.bump("R-KEYWORD-FLOW", "kwlen_covered", "%s|%d" % (tag, L))
 
     # -- R-LOOKAHEAD-LINEAR: an unbounded look-ahead scan is paid for by consuming what it scanned ------------------
     def r_lookahead_linear(self, I, seg):
@@ -1154,14 +1444,17 @@ class Rules:
         st = seg.st
         pending = None
         top_level = (seg.name == "Lexer::lex_token")
+        viol = []    # (consume event, message): dropped again if a later cursor restore un-consumes the character
+
+        def bad(ev, msg):
+            viol.append((ev, msg))
         for e in seg.events[seg.start:]:
             k = e.kind
             if k == "consume":
                 key = self.sites.key(e)
                 self.bump("R-NEWLINE", "consume_sites", key)
                 if pending is not None:
-                    I.ob("R-NEWLINE", self.sites.key(pending), False, self.sites.where(pending),
-                         "a possibly-'\\n' character is consumed and more input is consumed before add_line()")
+                    bad(pending, "a possibly-'\\n' character is consumed and more input is consumed before add_line()")
                     pending = None
                 if self.may_nl(I, st, e, seg.events[seg.start:]):
                     pending = e
@@ -1176,14 +1469,37 @@ class Rules:
                     pending = None
             elif k == "cur_token_write" and e.d.get("field") == "cur_token_line":
                 if pending is not None:
-                    I.ob("R-NEWLINE", self.sites.key(pending), False, self.sites.where(pending),
-                         "a possibly-'\\n' character was consumed and a new token is started before add_line()")
+                    bad(pending, "a possibly-'\\n' character was consumed and a new token is started before add_line()")
                     pending = None
             elif k in ("cursor_restore",):
                 pending = None
+                p = e.d.get("to_pos")
+                if p is not None:
+                    # the speculative walk is taken back: characters at or after p are not consumed after all
+                    viol = [(ev, m) for ev, m in viol if ev.d.get("pos", -1) < p]
         if pending is not None and (top_level or seg.out.kind == "loopback"):
-            I.ob("R-NEWLINE", self.sites.key(pending), False, self.sites.where(pending),
-                 "a possibly-'\\n' character is consumed and the scanner iteration ends without add_line()")
+            bad(pending, "a possibly-'\\n' character is consumed and the scanner iteration ends without add_line()")
+        if viol and seg.out.kind == "loopback":
+            # the path stops at a back-edge; if the function that consumed puts the cursor back later on, whether these
+            # characters stay consumed is decided on the paths that leave the loop (they repeat the same consumption)
+            viol = [(ev, m) for ev, m in viol if not self.fn_restores_cursor(ev.d.get("owner") or "")]
+        for ev, m in viol:
+            I.ob("R-NEWLINE", self.sites.key(ev), False, self.sites.where(ev), m)
+
+    def fn_restores_cursor(self, fname):
+        c = self.__dict__.setdefault("_restores", {})
+        if fname not in c:
+            r = False
+            b = self.fx.bodies.get(fname)
+            if b:
+                for node, _ in F.walk(b["hir"]):
+                    if node.get("k") == "Assign":
+                        l = F.strip(node["l"])
+                        if l.get("k") == "Field" and l.get("name") == "cursor":
+                            r = True
+                            break
+            c[fname] = r
+        return c[fname]
 
     # -- emissions: R-CHANNEL ----------------------------------------------
     def r_emit_rules(self, I, seg):
@@ -1993,6 +2309,26 @@ def frame_summary(I, mode, outs):
         elif dp or dn or unknown:
             res["other"].append(rec + ["frame / nesting change outside the frame keywords"])
     return res
+
+
+def keyword_length_obs(counts):
+    """R-KEYWORD-FLOW, existential part: every key length of a keyword table is admitted by the length conditions
+    of at least one path (of any mode) that consults the table in the function that owns the lookup."""
+    req = counts.get("R-KEYWORD-FLOW", {}).get("kwlen_required", set())
+    cov = counts.get("R-KEYWORD-FLOW", {}).get("kwlen_covered", set())
+    by = {}
+    for k in req:
+        tag, _, L = k.rpartition("|")
+        by.setdefault(tag, []).append((int(L), k in cov))
+    obs = []
+    for tag, xs in sorted(by.items()):
+        missing = sorted(L for L, c in xs if not c)
+        obs.append({"rule": "R-KEYWORD-FLOW", "key": "%s|length-shortcut" % tag, "ok": not missing, "site": "", "n": 1, "modes": [],
+                    "detail": "every key length (%d..%d) is admitted by a path that consults the table" % (min(L for L, _ in xs), max(L for L, _ in xs))
+                    if not missing else
+                    "no path of %s consults %s for an identifier of length %s: the length conditions in front of the lookup "
+                    "exclude it, so keywords of that length are never recognised" % (tag.split("|")[0], tag.split("|")[1], missing)})
+    return obs
 
 
 def frame_balance_obs(summaries):
